@@ -99,207 +99,12 @@ func c12(c *Ctx) {
 	r.Floor("C12.R3", 3)
 	r.Floor("C12.R4", 3)
 	r.Floor("C12.R5", 6)
-	root := p.FuncsIn("")
-	builder := p.NamedType("", "Builder")
-	mockerT := p.NamedType("", "Mocker")
-	if builder == nil || mockerT == nil {
-		r.Und("C12.R1", "Builder/Mocker", "", "exported types not found")
+	cc := checkCacheKeys(p, r, "C12.R1", "C12.R5")
+	if cc == nil {
 		return
 	}
-	mockerI := mockerT.Underlying().(*types.Interface)
-	pkgFld := structField(builder, "pkgName")
-	var cacheMap *types.Var
-	bst := builder.Underlying().(*types.Struct)
-	for i := 0; i < bst.NumFields(); i++ {
-		if _, ok := bst.Field(i).Type().Underlying().(*types.Map); ok {
-			cacheMap = bst.Field(i)
-		}
-	}
-	if cacheMap == nil {
-		r.Und("C12.R1", "Builder cache", "", "Builder has no map field")
-		return
-	}
-	if pkgFld == nil {
-		// the package override field: the string field of Builder
-		for i := 0; i < bst.NumFields(); i++ {
-			if b, ok := bst.Field(i).Type().Underlying().(*types.Basic); ok && b.Kind() == types.String {
-				pkgFld = bst.Field(i)
-			}
-		}
-	}
-
-	// ---------- R1 + R5b: lookups
-	// a "store helper" is a method that does MapUpdate on a map field with its parameters
-	isMapFieldOfRecv := func(v ssa.Value) (*types.Var, bool) {
-		_, fv, ok := fieldRef(v)
-		if !ok || fv == nil {
-			return nil, false
-		}
-		_, isMap := fv.Type().Underlying().(*types.Map)
-		return fv, isMap
-	}
-	type storeSite struct {
-		key ssa.Value
-		val ssa.Value
-		at  ssa.Instruction
-		fld *types.Var
-	}
-	storeHelpers := map[*ssa.Function]*types.Var{}
-	for _, f := range root {
-		if f.Signature.Recv() == nil || len(f.Params) != 3 {
-			continue
-		}
-		eachInstr(f, func(i ssa.Instruction) {
-			if mu, ok := i.(*ssa.MapUpdate); ok {
-				if fv, ok := isMapFieldOfRecv(mu.Map); ok && mu.Key == ssa.Value(f.Params[1]) && mu.Value == ssa.Value(f.Params[2]) {
-					storeHelpers[f] = fv
-				}
-			}
-		})
-	}
-	nLookups := 0
-	for _, f := range root {
-		if f.Signature.Recv() == nil || f.Object() == nil || !f.Object().Exported() {
-			continue
-		}
-		var lookups []*ssa.Lookup
-		var stores []storeSite
-		eachInstr(f, func(i ssa.Instruction) {
-			switch x := i.(type) {
-			case *ssa.Lookup:
-				if fv, ok := isMapFieldOfRecv(x.X); ok && x.CommaOk {
-					mt := fv.Type().Underlying().(*types.Map)
-					if implementsIface(mt.Elem(), mockerI) || types.Implements(mt.Elem(), mockerI) {
-						lookups = append(lookups, x)
-					}
-				}
-			case *ssa.MapUpdate:
-				if fv, ok := isMapFieldOfRecv(x.Map); ok {
-					stores = append(stores, storeSite{x.Key, x.Value, x, fv})
-				}
-			case *ssa.Call:
-				if cal := staticCallee(x.Common()); cal != nil {
-					if fv, ok := storeHelpers[cal]; ok {
-						stores = append(stores, storeSite{x.Call.Args[1], x.Call.Args[2], x, fv})
-					}
-				}
-			}
-		})
-		for _, lk := range lookups {
-			nLookups++
-			fv, _ := isMapFieldOfRecv(lk.X)
-			cons := "lookup in " + shortName(f) + " map " + fv.Name()
-			lkKey := exprKey(lk.Index, 0)
-			// matching store
-			var match *storeSite
-			for k := range stores {
-				if stores[k].fld == fv {
-					match = &stores[k]
-				}
-			}
-			if match == nil {
-				r.Bad("C12.R1", cons, p.Pos(posOf(lk)), "the lookup consults the cache but the freshly created mocker is never stored in it: the next lookup discards the configuration")
-			} else {
-				stKey := exprKey(match.key, 0)
-				same := lkKey == stKey
-				// the override must not be reset between the key computations
-				if same && pkgFld != nil {
-					eachInstr(f, func(i ssa.Instruction) {
-						if ci, ok := i.(ssa.CallInstruction); ok {
-							if cal := staticCallee(ci.Common()); cal != nil && storesField(cal, pkgFld) {
-								if reachableAfter(lk, i) && reachableAfter(i, match.at) && strings.Contains(lkKey, pkgFld.Name()) {
-									same = false
-								}
-							}
-						}
-					})
-				}
-				r.Check(same, "C12.R1", cons, p.Pos(posOf(match.at)), "consult key = store key = "+lkKey,
-					"the cache is consulted under key "+lkKey+" but the new mocker is stored under "+stKey+": asking again for the same target creates a fresh mocker and discards the configuration")
-			}
-			// returns of the looked-up value are guarded by ok && !Canceled()
-			var ex0, ex1 ssa.Value
-			for _, ref := range *lk.Referrers() {
-				if ex, ok := ref.(*ssa.Extract); ok {
-					if ex.Index == 0 {
-						ex0 = ex
-					} else {
-						ex1 = ex
-					}
-				}
-			}
-			returned := false
-			for _, ret := range returnsOf(f) {
-				for k := range ret.Results {
-					rv := retResult(ret, k)
-					if ex0 != nil && dependsOn(rv, func(v ssa.Value) bool { return v == ex0 }) {
-						returned = true
-						// the looked-up value may reach the return directly or as one incoming edge of a phi (single-exit
-						// style): in the latter case the conditions known on that edge count
-						var ways [][]Guard
-						var findWays func(v ssa.Value, extra []Guard, depth int)
-						findWays = func(v ssa.Value, extra []Guard, depth int) {
-							if depth > 4 {
-								return
-							}
-							switch x := v.(type) {
-							case *ssa.TypeAssert:
-								findWays(x.X, extra, depth+1)
-							case *ssa.ChangeInterface:
-								findWays(x.X, extra, depth+1)
-							case *ssa.MakeInterface:
-								findWays(x.X, extra, depth+1)
-							case *ssa.Phi:
-								for ei, e := range x.Edges {
-									if dependsOn(e, func(w ssa.Value) bool { return w == ex0 }) {
-										findWays(e, append(append([]Guard{}, extra...), knownAtEdge(x.Block().Preds[ei], x.Block())...), depth+1)
-									}
-								}
-							default:
-								if v == ex0 || dependsOn(v, func(w ssa.Value) bool { return w == ex0 }) {
-									ways = append(ways, extra)
-								}
-							}
-						}
-						findWays(rv, guardsAt(ret.Block()), 0)
-						if len(ways) == 0 {
-							ways = append(ways, guardsAt(ret.Block()))
-						}
-						okG, notCanceled := true, true
-						for _, gs := range ways {
-							wOK, wNC := false, false
-							for _, g := range gs {
-								if g.Cond == ex1 && g.Pol {
-									wOK = true
-								}
-								if cl, ok := g.Cond.(*ssa.Call); ok && !g.Pol && cl.Call.IsInvoke() && cl.Call.Method.Name() == "Canceled" && cl.Call.Value == ex0 {
-									wNC = true
-								}
-								if cl, ok := g.Cond.(*ssa.Call); ok && !g.Pol && !cl.Call.IsInvoke() {
-									if cal := staticCallee(cl.Common()); cal != nil && cal.Name() == "Canceled" && len(cl.Call.Args) > 0 && dependsOn(cl.Call.Args[0], func(v ssa.Value) bool { return v == ex0 }) {
-										wNC = true
-									}
-								}
-							}
-							if !wOK {
-								okG = false
-							}
-							if !wNC {
-								notCanceled = false
-							}
-						}
-						r.Check(okG && notCanceled, "C12.R5", "cached mocker handed back in "+shortName(f)+" map "+fv.Name(), p.Pos(posOf(ret)), "returned only if found and not cancelled",
-							"a cached mocker is handed back without the 'found && !Canceled()' guard: after Reset the old, cancelled configuration is continued instead of starting from scratch")
-					}
-				}
-			}
-			if !returned {
-				r.Bad("C12.R1", "cached mocker continued in "+shortName(f)+" map "+fv.Name(), p.Pos(posOf(lk)), "the cached mocker is looked up but never returned: the existing configuration is discarded on every lookup")
-			}
-		}
-	}
-	r.Stat("cache_lookups", nLookups)
-
+	root, mockerI, builder, pkgFld, cacheMap := cc.root, cc.mockerI, cc.builder, cc.pkgFld, cc.cacheMap
+	_, _, _ = builder, pkgFld, cacheMap
 	// ---------- R2: stub continuation
 	whenT := p.NamedType("", "When")
 	var contFld *types.Var
@@ -777,4 +582,238 @@ func checkStubInstalledWithContinuation(p *Prog, r *Report, rule string, only fu
 		r.Check(okAll, rule, shortName(f)+" installs the given callback on every path", p.Pos(f.Pos()), "every return passes an installing call",
 			"Apply can return without installing the callback it was given (an early-out such as 'same callback as before'): the most recent Apply is dropped and the earlier callback stays in effect")
 	}
+}
+
+// checkCacheKeys (C12.R1/R5, shared with C02.R6): every exported lookup method that consults a mocker cache stores the
+// mocker it creates under the same key it consulted (with no reset of the package override between the two key
+// computations), hands a cached mocker back only if found and not cancelled, and never shrinks the cache: a mocker the
+// builder forgot, or filed under another key, is not reached by Reset.
+type cacheCtx struct {
+	root     []*ssa.Function
+	mockerI  *types.Interface
+	builder  *types.Named
+	pkgFld   *types.Var
+	cacheMap *types.Var
+}
+
+func checkCacheKeys(p *Prog, r *Report, rKey, rGuard string) *cacheCtx {
+	root := p.FuncsIn("")
+	builder := p.NamedType("", "Builder")
+	mockerT := p.NamedType("", "Mocker")
+	if builder == nil || mockerT == nil {
+		r.Und(rKey, "Builder/Mocker", "", "exported types not found")
+		return nil
+	}
+	mockerI := mockerT.Underlying().(*types.Interface)
+	pkgFld := structField(builder, "pkgName")
+	var cacheMap *types.Var
+	bst := builder.Underlying().(*types.Struct)
+	for i := 0; i < bst.NumFields(); i++ {
+		if _, ok := bst.Field(i).Type().Underlying().(*types.Map); ok {
+			cacheMap = bst.Field(i)
+		}
+	}
+	if cacheMap == nil {
+		r.Und(rKey, "Builder cache", "", "Builder has no map field")
+		return nil
+	}
+	if pkgFld == nil {
+		// the package override field: the string field of Builder
+		for i := 0; i < bst.NumFields(); i++ {
+			if b, ok := bst.Field(i).Type().Underlying().(*types.Basic); ok && b.Kind() == types.String {
+				pkgFld = bst.Field(i)
+			}
+		}
+	}
+
+	// ---------- R1 + R5b: lookups
+	// a "store helper" is a method that does MapUpdate on a map field with its parameters
+	isMapFieldOfRecv := func(v ssa.Value) (*types.Var, bool) {
+		_, fv, ok := fieldRef(v)
+		if !ok || fv == nil {
+			return nil, false
+		}
+		_, isMap := fv.Type().Underlying().(*types.Map)
+		return fv, isMap
+	}
+	type storeSite struct {
+		key ssa.Value
+		val ssa.Value
+		at  ssa.Instruction
+		fld *types.Var
+	}
+	storeHelpers := map[*ssa.Function]*types.Var{}
+	for _, f := range root {
+		if f.Signature.Recv() == nil || len(f.Params) != 3 {
+			continue
+		}
+		eachInstr(f, func(i ssa.Instruction) {
+			if mu, ok := i.(*ssa.MapUpdate); ok {
+				if fv, ok := isMapFieldOfRecv(mu.Map); ok && mu.Key == ssa.Value(f.Params[1]) && mu.Value == ssa.Value(f.Params[2]) {
+					storeHelpers[f] = fv
+				}
+			}
+		})
+	}
+	nLookups := 0
+	for _, f := range root {
+		if f.Signature.Recv() == nil || f.Object() == nil || !f.Object().Exported() {
+			continue
+		}
+		var lookups []*ssa.Lookup
+		var stores []storeSite
+		eachInstr(f, func(i ssa.Instruction) {
+			switch x := i.(type) {
+			case *ssa.Lookup:
+				if fv, ok := isMapFieldOfRecv(x.X); ok && x.CommaOk {
+					mt := fv.Type().Underlying().(*types.Map)
+					if implementsIface(mt.Elem(), mockerI) || types.Implements(mt.Elem(), mockerI) {
+						lookups = append(lookups, x)
+					}
+				}
+			case *ssa.MapUpdate:
+				if fv, ok := isMapFieldOfRecv(x.Map); ok {
+					stores = append(stores, storeSite{x.Key, x.Value, x, fv})
+				}
+			case *ssa.Call:
+				if cal := staticCallee(x.Common()); cal != nil {
+					if fv, ok := storeHelpers[cal]; ok {
+						stores = append(stores, storeSite{x.Call.Args[1], x.Call.Args[2], x, fv})
+					}
+				}
+			}
+		})
+		for _, lk := range lookups {
+			nLookups++
+			fv, _ := isMapFieldOfRecv(lk.X)
+			cons := "lookup in " + shortName(f) + " map " + fv.Name()
+			lkKey := exprKey(lk.Index, 0)
+			// matching store
+			var match *storeSite
+			for k := range stores {
+				if stores[k].fld == fv {
+					match = &stores[k]
+				}
+			}
+			if match == nil {
+				r.Bad(rKey, cons, p.Pos(posOf(lk)), "the lookup consults the cache but the freshly created mocker is never stored in it: the next lookup discards the configuration")
+			} else {
+				stKey := exprKey(match.key, 0)
+				same := lkKey == stKey
+				// the override must not be reset between the key computations
+				if same && pkgFld != nil {
+					eachInstr(f, func(i ssa.Instruction) {
+						if ci, ok := i.(ssa.CallInstruction); ok {
+							if cal := staticCallee(ci.Common()); cal != nil && storesField(cal, pkgFld) {
+								if reachableAfter(lk, i) && reachableAfter(i, match.at) && strings.Contains(lkKey, pkgFld.Name()) {
+									same = false
+								}
+							}
+						}
+					})
+				}
+				r.Check(same, rKey, cons, p.Pos(posOf(match.at)), "consult key = store key = "+lkKey,
+					"the cache is consulted under key "+lkKey+" but the new mocker is stored under "+stKey+": asking again for the same target creates a fresh mocker and discards the configuration")
+			}
+			// returns of the looked-up value are guarded by ok && !Canceled()
+			var ex0, ex1 ssa.Value
+			for _, ref := range *lk.Referrers() {
+				if ex, ok := ref.(*ssa.Extract); ok {
+					if ex.Index == 0 {
+						ex0 = ex
+					} else {
+						ex1 = ex
+					}
+				}
+			}
+			returned := false
+			for _, ret := range returnsOf(f) {
+				for k := range ret.Results {
+					rv := retResult(ret, k)
+					if ex0 != nil && dependsOn(rv, func(v ssa.Value) bool { return v == ex0 }) {
+						returned = true
+						// the looked-up value may reach the return directly or as one incoming edge of a phi (single-exit
+						// style): in the latter case the conditions known on that edge count
+						var ways [][]Guard
+						var findWays func(v ssa.Value, extra []Guard, depth int)
+						findWays = func(v ssa.Value, extra []Guard, depth int) {
+							if depth > 4 {
+								return
+							}
+							switch x := v.(type) {
+							case *ssa.TypeAssert:
+								findWays(x.X, extra, depth+1)
+							case *ssa.ChangeInterface:
+								findWays(x.X, extra, depth+1)
+							case *ssa.MakeInterface:
+								findWays(x.X, extra, depth+1)
+							case *ssa.Phi:
+								for ei, e := range x.Edges {
+									if dependsOn(e, func(w ssa.Value) bool { return w == ex0 }) {
+										findWays(e, append(append([]Guard{}, extra...), knownAtEdge(x.Block().Preds[ei], x.Block())...), depth+1)
+									}
+								}
+							default:
+								if v == ex0 || dependsOn(v, func(w ssa.Value) bool { return w == ex0 }) {
+									ways = append(ways, extra)
+								}
+							}
+						}
+						findWays(rv, guardsAt(ret.Block()), 0)
+						if len(ways) == 0 {
+							ways = append(ways, guardsAt(ret.Block()))
+						}
+						okG, notCanceled := true, true
+						for _, gs := range ways {
+							wOK, wNC := false, false
+							for _, g := range gs {
+								if g.Cond == ex1 && g.Pol {
+									wOK = true
+								}
+								if cl, ok := g.Cond.(*ssa.Call); ok && !g.Pol && cl.Call.IsInvoke() && cl.Call.Method.Name() == "Canceled" && cl.Call.Value == ex0 {
+									wNC = true
+								}
+								if cl, ok := g.Cond.(*ssa.Call); ok && !g.Pol && !cl.Call.IsInvoke() {
+									if cal := staticCallee(cl.Common()); cal != nil && cal.Name() == "Canceled" && len(cl.Call.Args) > 0 && dependsOn(cl.Call.Args[0], func(v ssa.Value) bool { return v == ex0 }) {
+										wNC = true
+									}
+								}
+							}
+							if !wOK {
+								okG = false
+							}
+							if !wNC {
+								notCanceled = false
+							}
+						}
+						r.Check(okG && notCanceled, rGuard, "cached mocker handed back in "+shortName(f)+" map "+fv.Name(), p.Pos(posOf(ret)), "returned only if found and not cancelled",
+							"a cached mocker is handed back without the 'found && !Canceled()' guard: after Reset the old, cancelled configuration is continued instead of starting from scratch")
+					}
+				}
+			}
+			if !returned {
+				r.Bad(rKey, "cached mocker continued in "+shortName(f)+" map "+fv.Name(), p.Pos(posOf(lk)), "the cached mocker is looked up but never returned: the existing configuration is discarded on every lookup")
+			}
+		}
+	}
+	r.Stat("cache_lookups", nLookups)
+
+	// the caches are never shrunk: a retained mocker handle that is used again must still be cancelled by the next Reset
+	for _, f := range root {
+		eachInstr(f, func(i ssa.Instruction) {
+			cl, isCall := i.(*ssa.Call)
+			if !isCall {
+				return
+			}
+			if bi, isB := cl.Call.Value.(*ssa.Builtin); isB && bi.Name() == "delete" {
+				if fv, isM := isMapFieldOfRecv(cl.Call.Args[0]); isM {
+					mt := fv.Type().Underlying().(*types.Map)
+					if implementsIface(mt.Elem(), mockerI) || types.Implements(mt.Elem(), mockerI) {
+						r.Bad(rKey, "mocker cache "+fv.Name()+" shrunk in "+shortName(f), p.Pos(posOf(i)), "an entry is deleted from a mocker cache: a mocker handle the caller still holds is forgotten, so a later Reset no longer cancels what it re-applies")
+					}
+				}
+			}
+		})
+	}
+	return &cacheCtx{root, mockerI, builder, pkgFld, cacheMap}
 }
